@@ -71,17 +71,19 @@ def run(ctx):
         if line.startswith("spec "):
             _, cid, rest = line.rstrip("\n").split(" ", 2)
             specs[cid] = rest
-    # which proposed repairs the model follows: those whose finding is recorded as fixed
-    # (VERIF_C20_ASSUME_FIXED=a,b,.. or "all" overrides, for trying fixes with tools/with_patch)
-    flag_of = {"keepUnrun": "C20-skip-dropped", "oneCorrection": "C20-language-dup",
-               "keepSuffixPreamble": "C20-suffix-lost", "quoteReset": "C20-format-sexp-quote-state",
-               "keepCstFiltered": "C20-filtered-cst-reformatted"}
-    status = {k["id"]: k.get("status") for k in ctx.known}
-    assume = [x for x in os.environ.get("VERIF_C20_ASSUME_FIXED", "").split(",") if x]
-    fixes = {f: (status.get(i) == "fixed" or f in assume or "all" in assume) for f, i in flag_of.items()}
-    ctx.coverage["model_follows_repairs"] = fixes
-    fline = "fixes " + " ".join("1" if fixes[f] else "0" for f in ("keepUnrun", "oneCorrection", "keepSuffixPreamble", "quoteReset", "keepCstFiltered"))
-    rc, out = sh("(echo '%s'; cat %s) | %s" % (fline, ops, driver), timeout=3000)
+    # Which repairs the model follows is decided by the explorer, behaviourally: it probes the real code on one
+    # distinguishing input per repaired defect and writes a `fixes …` line at the top of the ops file.  (The status of
+    # a finding plays no role: a reverted fix makes the model follow the old behaviour and the judge report the old
+    # violation; a harmless rewrite of the code changes nothing.)
+    fixes = {}
+    for line in open(ops):
+        if line.startswith("fixes "):
+            bits = line.split()[1:]
+            fixes = dict(zip(("keepUnrun", "oneCorrection", "keepSuffixPreamble", "quoteReset", "keepCstFiltered"),
+                             [b == "1" for b in bits]))
+            break
+    ctx.coverage["model_follows_repairs (probed on the real code)"] = fixes
+    rc, out = sh("%s < %s" % (driver, ops), timeout=3000)
     evals = 0
     distinct = set()
     samples = []
